@@ -206,6 +206,34 @@ static std::string handle(const std::vector<std::string>& a) {
       }
       if ((da == db) != (r[0] == '1') || (da != db) != (r[1] == '1')) r += " TYPED-REF-DIFFERS(document)";
     }
+    // two strings of which one is a prefix of the other, living in ONE buffer (a view of the beginning of a linked
+    // string; a string linked to the bytes of an owned one that holds a NUL): same answers as in separate buffers
+    if (!unboundA && !unboundB && va.is<JsonString>() && vb.is<JsonString>()) {
+      JsonString ja = va.as<JsonString>(), jb = vb.as<JsonString>();
+      std::string A(ja.c_str(), ja.size()), B(jb.c_str(), jb.size());
+      bool aLong = A.size() >= B.size();
+      const std::string& L = aLong ? A : B;
+      const std::string& S = aLong ? B : A;
+      if (L.compare(0, S.size(), S) == 0) {
+        std::string expect = aLong ? r.substr(0, 12) : r.substr(6, 6) + r.substr(0, 6);   // L against S
+        std::vector<char> buf(L.begin(), L.end()); buf.push_back(0);
+        std::string t;
+        if (L.find('\0') == std::string::npos) {
+          JsonDocument dl; dl.set(static_cast<const char*>(buf.data()));
+          std::string g1 = bits12s(dl.as<JsonVariantConst>(), std::string_view(buf.data(), S.size()));
+          std::string g2 = bits12s(dl.as<JsonVariantConst>(), JsonString(buf.data(), S.size()));
+          if (g1 != expect) t = " SHARED-BUFFER-DIFFERS(view):" + g1;
+          else if (g2 != expect) t = " SHARED-BUFFER-DIFFERS(JsonString):" + g2;
+        } else if (L.find('\0') == S.size()) {
+          JsonDocument dl, ds; dl.set(L);
+          ds.set(dl.as<const char*>());                      // linked to the owned bytes, ends at the first NUL
+          std::string g3 = bits12(dl.as<JsonVariantConst>(), ds.as<JsonVariantConst>());
+          if (ds.as<JsonString>().size() != S.size()) t = " SHARED-BUFFER-SETUP";
+          else if (g3 != expect) t = " SHARED-BUFFER-DIFFERS(variants):" + g3;
+        }
+        r += t;
+      }
+    }
     // a null C string as the right operand is a null: it must give the same answers as a null variant
     if (!unboundB && a[2] == "n") {
       std::string sn = bits12s(va, (const char*)nullptr);
